@@ -247,6 +247,9 @@ func dropHomomorphicIndexes(_ *zap.Logger, _ *bbolt.Tx, b *bbolt.Bucket, _ cid.I
 		keysToDrop   [][]byte
 	)
 	attrIDPrefix = append(attrIDPrefix, []byte(object.FilterPayloadHomomorphicHash)...)
+	// the delimiter is a part of the prefix: attributes whose names merely start with the
+	// homomorphic hash filter name must not be touched
+	attrIDPrefix = append(attrIDPrefix, objectcore.MetaAttributeDelimiter...)
 	k, _ = c.Seek(attrIDPrefix)
 	for ; bytes.HasPrefix(k, attrIDPrefix); k, _ = c.Next() {
 		keysToDrop = append(keysToDrop, k)
